@@ -32,7 +32,7 @@ TOL = 1e-6 + 1e-9
 
 
 # appended to RULE in the evidence (vlib/runner.py)
-RULE_ADDENDUM = "Added in rounds 4-5: options.time.pattern_interpolation (12 % of the specs), any start clock time, the model's default demand pattern (options.hydraulic.pattern) for entries that name none."
+RULE_ADDENDUM = "Added in rounds 4-5: options.time.pattern_interpolation (12 % of the specs), any start clock time, the model's default demand pattern (options.hydraulic.pattern) for entries that name none. Round 7: every third pressure-dependent case constructs the simulator while the model still says DD."
 
 def n_cases(tier):
     return base_cases(tier) + len(suite.files(tier))     # + the repository's own tests under the monitor (vlib/props/suite.py)
